@@ -36,6 +36,7 @@ char* __real_strdup(const char*);
 int __real_posix_memalign(void**, size_t, size_t);
 void* __real_aligned_alloc(size_t, size_t);
 void* __real_ZSTD_createDCtx(void);
+size_t __real_ZSTD_decompressDCtx(void*, void*, size_t, const void*, size_t);
 // guarded hooks in /repo
 void carquet_verif_set_cpu_cap(int level);
 void carquet_verif_reset_detect(void);
@@ -237,7 +238,9 @@ static bool should_fail(size_t size) {
 }
 
 static void* tracked_alloc(size_t size, bool zero) {
-    if (should_fail(size)) { errno = ENOMEM; return nullptr; }
+    // allocations owned by a process-lifetime object (per-thread ZSTD context) depend on the worker's
+    // history, not on the run: they are neither events nor numbered fault sites
+    if (tl_lifetime == 0 && should_fail(size)) { errno = ENOMEM; return nullptr; }
     void* p = nullptr;
     size_t asz = size ? size : 1;
     if (__real_posix_memalign(&p, 64, asz) != 0 || !p) { errno = ENOMEM; return nullptr; }
@@ -563,7 +566,7 @@ void* __wrap_realloc(void* p, size_t size) {
     if (size == 0) { __wrap_free(p); return nullptr; }
     size_t old = it->second.size;
     bool lifetime = it->second.lifetime;
-    if (tl_api_depth > 0 && should_fail(size)) { errno = ENOMEM; return nullptr; }
+    if (tl_api_depth > 0 && !lifetime && tl_lifetime == 0 && should_fail(size)) { errno = ENOMEM; return nullptr; }
     if (!allocplan.realloc_moves && size <= old) {
         alloc.live_bytes -= (old - size);
         it->second.size = size;
@@ -601,6 +604,13 @@ int __wrap_posix_memalign(void** out, size_t align, size_t size) {
 void* __wrap_aligned_alloc(size_t align, size_t size) {
     if (tl_api_depth == 0) return __real_aligned_alloc(align, size);
     return tracked_alloc(size, false);
+}
+
+size_t __wrap_ZSTD_decompressDCtx(void* ctx, void* dst, size_t cap, const void* src, size_t n) {
+    tl_lifetime++;                       // the context may grow its own workspace
+    size_t r = __real_ZSTD_decompressDCtx(ctx, dst, cap, src, n);
+    tl_lifetime--;
+    return r;
 }
 
 void* __wrap_ZSTD_createDCtx(void) {
